@@ -110,6 +110,8 @@ ENGINES = [
  {"name": "leaf-model", "path": "harness/src/leaf.rs", "serves_properties": ["C01","C02","C03","C04","C05","C27"], "kind_free_text": "independent executable model of the leaf relation"},
  {"name": "pure-models", "path": "harness/src/pure.rs, harness/src/policy.rs", "serves_properties": ["C24","C25","C26","C28","C29","C35"], "kind_free_text": "reference models + catch_unwind + allocation counter over pure functions and entry points"},
  {"name": "pool-model + vclock", "path": "harness/src/poolcheck.rs, harness/src/vclock.rs", "serves_properties": ["C19","C20","C21","C22"], "kind_free_text": "sequential reference model of the pool; clock_gettime interposition giving an exact thread-local virtual monotonic clock"},
+ {"name": "leanref", "path": "harness/src/leanref.rs, lean/Drv.lean", "serves_properties": ["C34"], "kind_free_text": "Lean driver evaluating the specification's executable definitions on exported cases"},
+ {"name": "faults", "path": "harness/src/faults.rs", "serves_properties": ["C23"], "kind_free_text": "closure-level fault/crash injection through hook H7 and strace syscall injection into a child generator process"},
  {"name": "hints", "path": "harness/src/hints.rs", "serves_properties": ["C01","C02","C03","C04","C10","C30","C31"], "kind_free_text": "hint-override adversary: per-generator and pairwise overrides with semantic families"},
  {"name": "heapmon", "path": "harness/src/heapmon.rs", "serves_properties": ["C17","C25","C26","C28","C29","C33","C35"], "kind_free_text": "global-allocator wrapper: per-thread byte counter and secret scanner at dealloc/realloc"},
  {"name": "wrapper-models", "path": "harness/src/wrap.rs", "serves_properties": ["C06","C07","C08","C09","C12","C13","C36","C34"], "kind_free_text": "independent executable models of both aggregation wrappers; wrapper-only / full recursive circuit forms"},
@@ -139,6 +141,15 @@ CHECKS.update({
  "C23": ("fault_enumeration", "fault injection: exhaustive closure-level rename faults/crashes (hook H7) + strace syscall error/SIGKILL injection into the real generator process, with a directory-tree oracle",
          "Every combination of {ok, error, crash-before, crash-after} on the three renames of the publish/rollback sequence from every initial state {absent, file, previous directory} is executed through the injectable publish routine (the whole space: 192 plans); the real generate_all_circuit_binaries runs in a child process under strace where the k-th filesystem-mutating syscall returns EIO/ENOSPC or the process is SIGKILLed at syscall entry (quick: publish-phase syscalls; thorough: every syscall, three initial states); after every run each file is compared byte-wise with the previous and the new set.",
          "Trusted base: the harness's tree oracle; a panic in the injected closure stands for process death (no drop guards on that path); strace needs ptrace - when unavailable the syscall sub-check is skipped and recorded, the closure space still decides.", "§5 C23"),
+})
+
+CHECKS.update({
+ "C11": ("exploration", "runtime oracle over 'programs': foreign child circuits with valid proofs written into the real outer circuits, judged by the constraint oracle and the real prover/verifier, plus a free-input (verifier-key) audit",
+         "Alternative child circuits are assembled from the repository's public circuit fragments (one copy constraint / constant gate added, nullifier or root binding removed: same CommonCircuitData, different key; ZK config; unconstrained 21-PI circuit) and proved; each proof is written into the proof targets of PrivateBatchCircuit over the canonical leaf and, one layer up, of PublicBatchCircuit over the canonical private batch; the outer constraint system must be unsatisfied; an audit searches the outer circuit for prover-controlled inputs and, if a verifier key's worth appears, writes the foreign key there; constructors must return Err (no panic) for children with other public-input counts.",
+         CSO_NOTE, "§5 C11"),
+ "C34": ("other", "differential runtime monitor: circuit outputs vs the Lean specification's own executable definitions evaluated by lean",
+         "Accepted private-batch vectors (N in 1..8) judged by the wrapper circuit are handed to a Lean driver importing /repo/formal's WormholeSpec; groupExits (maskedChildPairs leaves), leaves.find? isRealB and digestLt on the circuit's nullifier region are evaluated from the spec's own definitions and compared with the circuit's output felts. `lake build` of the package runs first (it is what makes the definitions executable); a failing build or a `sorry` is reported.",
+         "The first sentence of C34 (theorems are proven) is a proof-checker verdict, not a runtime observation: it is reported from the build step and recorded under assumptions; the claim of this check is the spec-vs-circuit differential. Trusted base: lean/lake 4.33, plonky2 evaluators.", "§5 C34, §8"),
 })
 
 def head(repo):
